@@ -5,14 +5,14 @@ sys.path.insert(0, os.path.join(os.path.dirname(os.path.abspath(__file__)), ".."
 from vlib import *
 
 
-def ns_cfg(n, workers, qlen, early="FALSE"):
-    return ('SPECIFICATION Spec\nCONSTANTS Msgs = {%s} Workers = {%s} QLen = %d CloseEarly = %s\n'
+def ns_cfg(n, workers, qlen, early="FALSE", handoff="blocking"):
+    return ('SPECIFICATION Spec\nCONSTANTS Msgs = {%s} Workers = {%s} QLen = %d CloseEarly = %s StopHandoff = "%s"\n'
             'INVARIANTS AtMostOnce Drained NoLate NoPanic\nPROPERTIES Termination\nCHECK_DEADLOCK FALSE\n'
-            % (",".join(str(i) for i in range(1, n + 1)), ",".join(str(i) for i in range(1, workers + 1)), qlen, early))
+            % (",".join(str(i) for i in range(1, n + 1)), ",".join(str(i) for i in range(1, workers + 1)), qlen, early, handoff))
 
 
 def trace_cfg(workers, qlen):
-    return ('SPECIFICATION TSpec\nCONSTANTS Msgs = {1,2,3,4,5,6,7,8,9,10,11,12} Workers = {%s} QLen = %d CloseEarly = FALSE\n'
+    return ('SPECIFICATION TSpec\nCONSTANTS Msgs = {1,2,3,4,5,6,7,8,9,10,11,12} Workers = {%s} QLen = %d CloseEarly = FALSE StopHandoff = "blocking"\n'
             'INVARIANTS AtMostOnce Drained NoLate NoPanic\nCONSTRAINT HighWater\nPOSTCONDITION Accepted\nCHECK_DEADLOCK FALSE\n'
             % (",".join(str(i) for i in range(1, workers + 1)), qlen))
 
@@ -39,6 +39,8 @@ def run(ctx):
     ctx.tlc_must_hold("NatsServer", "n.cfg", cfg_text=ns_cfg(4, 1, 0), timeout=900)
     ctx.tlc_must_hold("NatsServer", "n.cfg", cfg_text=ns_cfg(3, 2, 2), timeout=900)
     ctx.tlc("NatsServer", "n.cfg", cfg_text=ns_cfg(4, 2, 1, "TRUE"), expect_violation="NoPanic", count=False, timeout=600)
+    # named deviation: a Stop that does not wait for Serve to receive the stop request loses it
+    ctx.tlc("NatsServer", "n.cfg", cfg_text=ns_cfg(2, 1, 1, "FALSE", "nonblocking"), expect_violation="NoLate", count=False, timeout=600)
     if thorough:
         ctx.tlc_must_hold("NatsServer", "n.cfg", cfg_text=ns_cfg(5, 2, 1), timeout=3000, workers=NCPU, heap="12g")
         ctx.tlc_must_hold("NatsServer", "n.cfg", cfg_text=ns_cfg(4, 3, 0), timeout=3000, workers=NCPU, heap="12g")
